@@ -77,10 +77,10 @@ def oneOfUnconvert (valid : List Str) (required : Bool) : Val → PyM Val
 
 /-! ### Integer -/
 
-/-- `Integer.enforce_length`: only `value >= 10**length` -/
+/-- `Integer.enforce_length`: `abs(value) >= 10**length` -/
 def intEnforceLength (length : Option Nat) (i : Int) : PyM Unit :=
   match length with
-  | some n => if i ≥ (10 : Int) ^ n then .error .spec else .ok ()
+  | some n => if i.natAbs ≥ 10 ^ n then .error .spec else .ok ()
   | none => .ok ()
 
 def boolToInt (b : Bool) : Int := if b then 1 else 0
